@@ -288,7 +288,8 @@ def main(argv=None):
 
 def do_replay(prop, o, repo):
     """Ask the pack's native replayer (real code under /venv) for a failing input."""
-    safe = o["id"].replace("/", "_").replace(":", "_").replace("#", "_")
+    import re as _re
+    safe = _re.sub(r"[^A-Za-z0-9_.-]", "_", o["id"])[:180]
     path = f"out/replays/{safe}.json"
     req = {"property": prop, "obligation": o["id"], "witness": o.get("witness"), "reason": o.get("reason"),
            "function": o.get("function"), "repo": repo, "extra": o.get("replay_hint")}
